@@ -48,9 +48,36 @@ def make_pre(inst):
     return extra_pre
 
 
+def attribute(res, inst, pid):
+    """Known findings of program families are identified by a trigger (operator and operand kinds, carried by the family member as a
+    tag `trigger:<op>:<kindL>,<kindR>`; such members contain nothing but the triggering operation) plus the symptom (how it fails).
+    A failure of a member without the trigger, or with another symptom, stays a violation."""
+    trig = [t.split(":")[1:] for t in inst.get("tags", []) if t.startswith("trigger:")]
+    if not trig or not res.get("violations"):
+        return
+    findings = [f for f in core.load_findings(pid) if f.get("kind") == "program-op"]
+    rest = []
+    for v in res["violations"]:
+        hit = None
+        for f in findings:
+            tr, sy = f.get("trigger", {}), f.get("symptom", {})
+            for op, kinds in trig:
+                if op in tr.get("ops", []) and kinds.split(",") in tr.get("kinds", []):
+                    if sy.get("kind") == "rejected" and v.get("rejected") and v.get("exc") == sy.get("exc") and v.get("where") == sy.get("where"):
+                        hit = f
+                    elif sy.get("kind") == "wrong-value" and (v["what"].startswith("VM result") or v["what"].startswith("VM failed with " + sy.get("exc", "TypeError"))):
+                        hit = f
+        if hit:
+            res.setdefault("known", []).append(dict(id=hit["id"], what=hit["what"]))
+        else:
+            rest.append(v)
+    res["violations"] = rest
+
+
 def run_item(inst, harness, optimize=False, **kw):
     prog = parse(inst["source"])
     res = progcheck.check_program(prog, inst["fname"], harness=harness, inst=inst, extra_pre=make_pre(inst), optimize=optimize, **kw)
+    attribute(res, inst, harness)
     res["sample"] = dict(name=inst.get("name"), source=inst["source"][:400], paths=res["paths"], queries=res["queries"])
     res["key"] = inst["source"] + "@" + inst["fname"]
     res["tags"] = inst.get("tags", [])
